@@ -286,9 +286,11 @@ CLAIMED["C25"] = dict(
    text="Proof-level guard obligation on the real FilerServer.saveMetaData (HTTP, lookups and storing abstracted; the chunk loop carries an inductive invariant for any "
         "number of uploaded chunks): where the chunk list is handed on, every uploaded chunk has been shifted by exactly the recorded file size minus the uploaded bytes "
         "- i.e. an append places the new data at the size the file had before and grows the recorded size by the uploaded bytes, a plain write shifts nothing and "
-        "records exactly the uploaded bytes (exact 64-bit arithmetic).",
-   note="Only the offset arithmetic of saveMetaData: uploadReaderToChunks (goroutines: out of the sequential subset; the seeded change C25-m1 lives there), reading the "
-        "request body, the upload RPCs, 'current end of the file' as max(chunk end, recorded size) and error paths are not decided. Assumed: a looked-up entry is "
+        "records exactly the uploaded bytes (exact 64-bit arithmetic). And on FilerServer.uploadReaderToChunks (the chunk uploads in goroutines abstracted, the "
+        "reading loop followed): an error of the request body - as opposed to its end - is returned as an error, so a body that fails part-way is not committed.",
+   note="The offset arithmetic of saveMetaData and the error path of the body reading loop: which bytes go into which chunk, the inline-storage decision (the seeded "
+        "change C25-m1 lives there), the upload RPCs, 'current end of the file' as max(chunk end, recorded size) are not decided. One defect repaired (a body that "
+        "failed part-way was committed as a truncated file). Assumed: a looked-up entry is "
         "decoded afresh (shares no chunk array with the request), lookups and query parsing do not modify the uploaded chunks, stored sizes are below 2^61; memory "
         "safety of the abstracted function is assumed. " + TRUST,
    design="DESIGN.md §4 C25")
